@@ -756,6 +756,7 @@ func (lb *LoadBalancer) proxyRequest(backend *Backend, w http.ResponseWriter, r 
 	rw := &responseWriter{
 		ResponseWriter: w,
 		statusCode:     http.StatusOK, // Default status code
+		preset:         w.Header().Clone(),
 	}
 
 	// The reverse proxy aborts a response that fails mid-body (backend reset, client gone)
@@ -849,11 +850,27 @@ func (lb *LoadBalancer) handlePassiveHealthCheck(backend *Backend, statusCode in
 type responseWriter struct {
 	http.ResponseWriter
 	statusCode int
+	// preset holds the response headers that were already set when proxying started
+	// (request/trace IDs, headers added by plugins)
+	preset     http.Header
+	sawInterim bool
 }
 
 // WriteHeader captures the status code
 func (rw *responseWriter) WriteHeader(statusCode int) {
 	rw.statusCode = statusCode
+	if statusCode < http.StatusOK && statusCode != http.StatusSwitchingProtocols {
+		rw.sawInterim = true
+	} else if rw.sawInterim {
+		// httputil.ReverseProxy empties the header map after it has forwarded an interim
+		// (1xx) response, which also drops what the middleware chain had set before the
+		// request was proxied. Put those fields back, ahead of the backend's own.
+		rw.sawInterim = false
+		h := rw.Header()
+		for k, vs := range rw.preset {
+			h[k] = append(append([]string(nil), vs...), h[k]...)
+		}
+	}
 	if statusCode >= http.StatusOK {
 		// A proxy must not invent a Content-Type the backend did not send:
 		// a nil entry keeps net/http from sniffing one from the body.
